@@ -35,7 +35,51 @@ def levels_from_mir(db):
         binary = bool(toks) and any(re.search(r'many0::<[^,]+, \((?:nom_locate::)?LocatedSpan<&str>, (?:script::)?Value\)', ln) for ln in f.raw_lines)
         if binary:
             out[m.group(1)] = {'tokens': toks, 'next': nxt, 'fn': f}
+    if out:
+        return out
+    # no level is written as `map(tuple((next, many0(tuple((ws(alt(tags)), next))))), fold)`: read each level's combinator tree instead.
+    # Understood: a rule that hands (a rule, an alt of tags) to ONE helper of the repository (the helper then is the level's shape)
+    for f in db.fns:
+        m = re.match(r'^(?:parser::)?(op_[0-9_]+)$', f.name)
+        if not m:
+            continue
+        try:
+            t = combinator_tree(db, f)
+        except Exception:   # noqa
+            continue
+        calls = []
+
+        def walk(x):
+            if x[0] in ('lit', 'rule', '?', 'closure'):
+                return
+            if x[0] not in NOM:
+                try:
+                    db.free(x[0])
+                    calls.append(x)
+                except KeyError:
+                    pass
+            for k in x[1]:
+                walk(k)
+        walk(t)
+        if len(calls) != 1 or len(calls[0][1]) != 2:
+            continue
+        a, b = calls[0][1]
+        toks = []
+
+        def tags(x):
+            if x[0] in ('tag', 'tag_no_case') and x[1] and x[1][0][0] == 'lit':
+                toks.append((x[1][0][1], x[0] == 'tag_no_case'))
+            elif x[0] not in ('lit', 'rule', '?', 'closure'):
+                for k in x[1]:
+                    tags(k)
+        tags(b)
+        if a[0] == 'rule' and toks:
+            out[m.group(1)] = {'tokens': toks, 'next': a[1] if re.match(r'^op_[0-9_]+$', a[1]) else None, 'fn': f, 'helper': calls[0][0]}
     return out
+
+
+NOM = {'tag', 'tag_no_case', 'alt', 'tuple', 'pair', 'preceded', 'terminated', 'delimited', 'separated_pair', 'map', 'many0', 'many1', 'context', 'ws', 'opt', 'cut',
+       'map_res', 'map_opt', 'recognize', 'verify', 'all_consuming', 'separated_list0', 'separated_list1', 'parse'}
 
 
 def documented_operators(readme_text):
@@ -91,6 +135,10 @@ def spec_operator_tables(ck):
     for nm, lv in levels.items():
         if lv['tokens']:
             ck.target(lv['fn'])
+    helpers = sorted(set(lv['helper'] for lv in levels.values() if lv.get('helper')))
+    if helpers:
+        ck.assumptions.append('the binary levels are built by the helper %s(next level, operator tokens): it is taken to try the tokens where an operator may stand '
+                              'and to parse operands with the next level (its body is generic over nom parsers and is not executed)' % ' / '.join(helpers))
     ck.plans.append(replay_plan)
     # depth of each level in the delegation chain (larger = binds tighter)
     depth = {}
